@@ -102,7 +102,7 @@ def parse_verus_errors(stderr, unit_file, text):
     return errs
 
 
-def run_verus_unit(unit, rlimit=200, probe=False, repo=None, extra=None):
+def run_verus_unit(unit, rlimit=200, probe=False, repo=None, extra=None, timeout=1500):
     """Build units/<unit>.vt.rs from repo and run Verus. Returns dict."""
     repo = repo or REPO
     os.makedirs(WORK, exist_ok=True)
@@ -124,7 +124,7 @@ def run_verus_unit(unit, rlimit=200, probe=False, repo=None, extra=None):
     res["rewrites"] = man["log"]
     cmd = ["verus", f, "--triggers-mode", "silent", "--rlimit", str(rlimit), "--output-json", "--time",
            "--multiple-errors", "40" if probe else "4"] + (extra or [])
-    rc, out, err, dt = sh(cmd, cwd=wd, timeout=1500)
+    rc, out, err, dt = sh(cmd, cwd=wd, timeout=timeout)
     res["cmd"] = " ".join(cmd[:1] + ["<unit>.rs"] + cmd[2:])
     res["wall_s"] = round(time.time() - t0, 2)
     try:
@@ -177,7 +177,14 @@ def verus_with_retry(unit, rlimit, repo=None):
         return r
     if r["status"] == "undecided" and r.get("reason") != "rlimit exceeded":
         return r
-    r2 = run_verus_unit(unit, rlimit * 4, False, repo, extra=["--smt-option", "smt.random_seed=17"])
+    # the second attempt gets a generous but finite wall budget: a semantic failure usually shows at once, and a
+    # mutated loop body can keep Z3 busy for a long time at 4x rlimit
+    budget = max(300, int(10 * r.get("wall_s", 30)))
+    r2 = run_verus_unit(unit, rlimit * 4, False, repo, extra=["--smt-option", "smt.random_seed=17"], timeout=budget)
+    if r2["status"] == "undecided" and r2.get("reason") == "verus timeout" and r["status"] == "fail":
+        r["retried"] = True
+        r["retry_note"] = f"second attempt (4x rlimit, other seed) did not finish within {budget}s; first verdict kept"
+        return r
     r2["retried"] = True
     r2["first_attempt"] = {"status": r["status"], "errors": [e["msg"] + " | " + e["clause"] for e in r.get("errors", [])][:5]}
     return r2
